@@ -2,7 +2,7 @@
 # Build everything the checks need from $VERIF_REPO (default /repo). Idempotent; cargo no-ops when fresh.
 # usage: build.sh [shim] [cli] [cli-dev] [cli-vg] [vh] [vh-debug]   (default: shim cli vh)
 set -euo pipefail
-V=/verif
+V="$(cd "$(dirname "$0")/.." && pwd)"
 REPO="${VERIF_REPO:-/repo}"
 export CARGO_NET_OFFLINE=true
 T="${VERIF_TARGET:-$V/target}"
